@@ -819,6 +819,10 @@ func evalBinaryArrayExpr(op parser.Operator, left *arrayVal, right value) (value
 		if repetitions < 0 {
 			return nil, fmt.Errorf("%w: negative count: %s", ErrBadRepetition, right)
 		}
+		if n := len(*left.Elements); n != 0 && repetitions > math.MaxInt32/n {
+			// len*repetitions must not overflow and must stay a valid slice length.
+			return nil, fmt.Errorf("%w: result too large: %s", ErrBadRepetition, right)
+		}
 		newElements := make([]value, 0, len(*left.Elements)*repetitions)
 		for range repetitions {
 			newElements = append(newElements, *(deepCopy(left).(*arrayVal).Elements)...)
